@@ -275,6 +275,21 @@ func c04(env *core.Env, kind string, faulty bool) {
 	} else if eff <= 0 {
 		eff = 100
 	}
+	// start
+	w, err := r.st.Reg.PushBlobChunked(r.ctx, r.repo, r.hint)
+	if err != nil {
+		env.Failf("C04/start/unexpected-failure", "PushBlobChunked failed: %v", err)
+	}
+	// The workload is sized by the chunk size the writer reports (so that "several chunk
+	// sizes" stays true whatever the defaults are); the value worked out above is only
+	// the fallback for writers that report nothing usable.
+	if w != nil && !hugeHint {
+		if cs := w.ChunkSize(); cs > 0 && cs <= 1<<20 {
+			eff = cs
+		}
+	}
+	r.w = w
+	r.id = w.ID()
 	lens := []int{0, 1, 2, 3, eff - 1, eff, eff + 1, 2*eff + 1, 3 * eff, c.Range("len.any", 0, 5*eff)}
 	L := lens[c.Int("len", len(lens))]
 	if L < 0 {
@@ -287,14 +302,7 @@ func c04(env *core.Env, kind string, faulty bool) {
 	dig := reg.Sha256(r.content)
 	env.Sample("stack=%s repo=%q hint=%d effective-chunk=%d length=%d faults<=%d", kind, r.repo, r.hint, eff, L, maxFaults)
 
-	// start
-	w, err := r.st.Reg.PushBlobChunked(r.ctx, r.repo, r.hint)
 	env.Op("start")
-	if err != nil {
-		env.Failf("C04/start/unexpected-failure", "PushBlobChunked failed: %v", err)
-	}
-	r.w = w
-	r.id = w.ID()
 	pos := int64(0) // bytes of content handed to the current writer chain
 
 	// cut points
